@@ -880,3 +880,41 @@ example :
                 if n = "output" then { kind := 1, ndim := 2, shape := [3, 4], tnum := 0, flags := 7 } else {}) = some 1 := by
   decide
 example : Generated.argLinkTable.length = 63 ∧ Generated.checkFlowTable.length = 6 := by decide
+
+/-! ### round 3, composed with the C10 theorems of round 3 (histogram, lbp map) -/
+
+/-- **C11+C10 (fullhistogram → histogram).** The extracted links of `histogram.fullhistogram` show what reaches
+`_histogram.histogram`: a rank-and-shape preserving conversion of `img` (`np.require(img, requirements='CAW')`) and a bins
+array built by exactly the expression `np.zeros(int(img.max()) + 1, np.uintc)` — the sizing `C10Misc.histWrapperSize`
+models. If the native guards pass, both are C arrays and the bins are `uint32`; if moreover the type switch of the kernel
+admits the array's type number (the UNSIGNED guard: `histTypeRange`, every admitted type has `lo = 0`) and the element
+values are values of that C type, then every `data[i]` and every `++histogram[v]` is in bounds (C10 round 3). -/
+theorem C11_histogram_safe (env : Env) (lo hi : Int) (vals : List Int) (s : Int)
+    (hn : npasses Generated.nativeGuards_histogram_histogram env = true)
+    (hty : C10Misc.histTypeRange (env "array").tnum = some (lo, hi))
+    (hv : ∀ v ∈ vals, lo ≤ v ∧ v ≤ hi) (hs : C10Misc.histWrapperSize vals = some s) :
+    Generated.links_histogram_fullhistogram__histogram_histogram =
+      [("array", .norm "img"), ("histogram", .other "np.zeros(int(img.max()) + 1, np.uintc)")] ∧
+    ((env "array").isCArray = true ∧ (env "histogram").isCArray = true ∧ (env "histogram").tnum = 6) ∧
+    ∀ a ∈ C10Misc.histAccesses vals s, 0 ≤ a.i ∧ a.i < a.size := by
+  simp [Generated.nativeGuards_histogram_histogram, npasses, NAtom.rejects, isArr] at hn
+  obtain ⟨ha, hh, h3, h4, h5⟩ := hn
+  simp [ha, hh] at h3 h4 h5
+  exact ⟨by decide, ⟨h3, h4, h5⟩, C10_histogram_in_bounds (env "array").tnum lo hi vals s hty hv hs⟩
+
+/-- **C11+C10 (lbp map) — partial.** If the guards of the native `py_map` pass, the array is a contiguous 1-D `uint32`
+array, mapped in place over its `dim(0)` elements; for `npoints = P ≤ 32` and codes below `2^P` every access of the C10
+model (the element, the shift count `P − 1` against the word size, the mapped code against the `2^P` entries of the
+tables of `lbp.py`) is in bounds and the rotation loop ends. THE GAP: neither `P ≤ 32` nor `code < 2^P` is implied by a
+guard — the second conjunct exhibits a descriptor with `npoints = 40` that passes every native guard (`lbp.py` passes its
+`points` through unchanged: link `pass points`; the codes are sums of `points` distinct powers of two, a value fact
+outside the descriptor DSL). For `P > 32` the shift count exceeds the word size (undefined behaviour, no memory access). -/
+theorem C11_lbp_safe_partial (env : Env) (P : Nat) (hP : P ≤ 32)
+    (hn : npasses Generated.nativeGuards_lbp_map env = true) :
+    (PreLbp env ∧ ∀ codes : List Nat, (∀ v ∈ codes, v < 2 ^ P) →
+      ∀ a ∈ C10Misc.lbpAccesses (P : Int) codes, 0 ≤ a.i ∧ a.i < a.size) ∧
+    (npasses Generated.nativeGuards_lbp_map (fun n =>
+        if n = "array" then { kind := 1, ndim := 1, shape := [5], tnum := 6, flags := 7 } else
+        if n = "npoints" then { kind := 2, ival := 40 } else {}) = true ∧
+      Generated.links_features_lbp_lbp_transform__lbp_map.getD 1 default = ("npoints", .pass "points")) :=
+  ⟨⟨((C11_features_guards_imply_pre env).1 hn).2, (C10_lbp_map_in_bounds P hP).1⟩, by decide⟩
